@@ -127,8 +127,9 @@ const (
 	OpBucketProbe = "bprobe" // Path: Bucket() lookups incl. missing
 	OpCursor      = "cursor" // Path, Cur: list of cursor calls
 	OpClosedTxUse = "closeduse"
-	OpBulkPut     = "bulkput" // Path, Key (prefix), From, To, KN (key length), Val
-	OpBulkDel     = "bulkdel" // Path, Key (prefix), From, To, KN
+	OpBulkPut     = "bulkput"  // Path, Key (prefix), From, To, KN (key length), Val
+	OpBulkDel     = "bulkdel"  // Path, Key (prefix), From, To, KN
+	OpArmFault    = "armfault" // U: the U-th I/O call from now fails once (kinds in Note, default all but mmap)
 )
 
 type CurCall struct {
